@@ -220,14 +220,17 @@ func init() {
 			}
 			reach := (&PathQ{Fn: ab, Cut: []EdgeCut{specCut(subj, v)}}).ReachableInstrs()
 			got := map[string]bool{}
-			for in := range reach {
-				if cc, ok := in.(ssa.CallInstruction); ok {
-					o := CalleeObj(cc)
-					for _, x := range watch {
-						if o == x {
-							got[o.Name()] = true
-						}
+			isWatched := func(o *types.Func) bool {
+				for _, x := range watch {
+					if o == x {
+						return true
 					}
+				}
+				return false
+			}
+			for o := range w.CalledThroughHelpers(reach, isWatched, 3) {
+				if isWatched(o) {
+					got[o.Name()] = true
 				}
 			}
 			r.Check(strings.Join(sortedKeys(got), ",") == strings.Join(want, ","), "Abort:inverse-of:"+c.Name(), "the rollback branch of "+c.Name()+" runs exactly the inverse operations {"+strings.Join(want, ",")+"}", "branch for "+c.Name()+" calls {"+strings.Join(sortedKeys(got), ",")+"}")
@@ -362,7 +365,16 @@ func init() {
 			}
 		}
 		r.Floor("receives in Run", len(recvs), 1)
-		r.Floor("reply/requeue sites in Run", len(outs), 3)
+		nReply, nHandle := 0, 0
+		for _, in := range outs {
+			if isReply(in) {
+				nReply++
+			} else {
+				nHandle++
+			}
+		}
+		r.Floor("reply sites in Run", nReply, 1)
+		r.Floor("requeue sites in Run", nHandle, 1)
 		recvVal := recvs[0].(ssa.Value)
 		nonNil := nilCompareCut(func(v ssa.Value) bool { return resolveCell(v) == recvVal }, true)
 		wit := (&PathQ{Fn: run, Cut: []EdgeCut{nonNil}, Avoid: func(in ssa.Instruction) bool { return isReply(in) || isHandle(in) }, Target: func(in ssa.Instruction) bool { return isRecv(in) || isReturn(in) }}).FromAfter(recvs)
